@@ -128,6 +128,69 @@ def noSplitOfFields (c : String) : List (String × RExp) → Bool
 end
 
 mutual
+/-- every `split` over call `c` inside is in mode `m` (array / typed map) -/
+def splitModeOk (c : String) (m : Bool) : RExp → Bool
+  | .lit _ => true
+  | .arr xs => splitModeOkList c m xs
+  | .map kvs => splitModeOkFields c m kvs
+  | .struct kvs => splitModeOkFields c m kvs
+  | .ref _ _ _ => true
+  | .split c' m' e => (c' != c || m' == m) && splitModeOk c m e
+  | .merge _ _ e => splitModeOk c m e
+  | .disabled d v => splitModeOk c m d && splitModeOk c m v
+  | .fork _ _ e => splitModeOk c m e
+def splitModeOkList (c : String) (m : Bool) : List RExp → Bool
+  | [] => true
+  | e :: es => splitModeOk c m e && splitModeOkList c m es
+def splitModeOkFields (c : String) (m : Bool) : List (String × RExp) → Bool
+  | [] => true
+  | (_, e) :: es => splitModeOk c m e && splitModeOkFields c m es
+end
+
+mutual
+/-- `e` can be specialised to a fork of call `c` iterated in mode `m`: no `merge` over `c` inside
+(the compiler returns the merged value of that fork for such a merge — the outputs of `c`'s callee
+never contain one) and every `split` over `c` is in mode `m` -/
+def pushOk (c : String) (m : Bool) : RExp → Bool
+  | .lit _ => true
+  | .arr xs => pushOkList c m xs
+  | .map kvs => pushOkFields c m kvs
+  | .struct kvs => pushOkFields c m kvs
+  | .ref _ _ _ => true
+  | .split c' m' e => (c' != c || m' == m) && pushOk c m e
+  | .merge c' _ e => c' != c && pushOk c m e
+  | .disabled d v => pushOk c m d && pushOk c m v
+  | .fork _ _ e => pushOk c m e
+def pushOkList (c : String) (m : Bool) : List RExp → Bool
+  | [] => true
+  | e :: es => pushOk c m e && pushOkList c m es
+def pushOkFields (c : String) (m : Bool) : List (String × RExp) → Bool
+  | [] => true
+  | (_, e) :: es => pushOk c m e && pushOkFields c m es
+end
+
+/-- the index `ix` belongs to mode `m` -/
+def IdxMode : Idx → Bool → Prop
+  | .i _, false => True
+  | .k _, true => True
+  | _, _ => False
+
+mutual
+/-- a reference-free JSON literal in the resolved-expression language -/
+def jsonR : RExp → Bool
+  | .lit _ => true
+  | .arr xs => jsonRList xs
+  | .map kvs => jsonRFields kvs
+  | _ => false
+def jsonRList : List RExp → Bool
+  | [] => true
+  | e :: es => jsonR e && jsonRList es
+def jsonRFields : List (String × RExp) → Bool
+  | [] => true
+  | (_, e) :: es => jsonR e && jsonRFields es
+end
+
+mutual
 /-- no `merge` over call `c` anywhere inside -/
 def noMergeOf (c : String) : RExp → Bool
   | .lit _ => true
